@@ -8,10 +8,18 @@ A `profile` switches feature families on and off so that each property's check c
   raises      crash injection (an action raising an exception / keyboard interrupt)
   periods     non-zero framer periods (multiples / non-multiples of the tick)
   slaves      slave framers driven by ready/start/run/stop/abort fiats (first-frame guards on inputs)
+  needs       general comparison conditions (C21): tolerance, share-valued goals, string / boolean shares, truthiness,
+              conditions on the framer clocks with tolerance, conjunctions of up to three, sometimes numbers in halves
+  marks       `is updated` / `is changed` conditions on transitions (C20), with `in frame` / `by` forms
+  watch       (shape) a program concentrated on marks: watcher framers, a writer framer before / after them in house
+              order writing same / different values at various ticks by put / inc / a second field, inputs written by
+              the environment
 """
 import random
 
-ALL = ("forest", "aux", "condaux", "done", "bids", "guards", "clocks", "inputs", "periods", "slaves")
+from .emit import EXTRA
+
+ALL = ("forest", "aux", "condaux", "done", "bids", "guards", "clocks", "inputs", "periods", "slaves", "needs", "marks")
 
 
 def frame(framer, name, over="", under=""):
@@ -32,12 +40,23 @@ def need(k, neg=False, **kw):
 OPS = ("==", "!=", "<", "<=", ">=", ">")
 
 
+def kind_of(v):
+    return "b" if isinstance(v, bool) else "s" if isinstance(v, str) else "n"
+
+
+def normalize(prog):
+    """defaults for fields added after a program was recorded (replay of older evidence)"""
+    prog.setdefault("envvals", {s: [0, 1] for s in prog.get("inputs", ())})
+    return prog
+
+
 class Gen:
     def __init__(self, rng, profile=ALL, size=None):
         self.r = rng
         self.p = set(profile)
         self.size = size or {}
         self.ntag = 0
+        self.markkinds = {}
 
     def has(self, f):
         return f in self.p
@@ -78,7 +97,72 @@ class Gen:
                 if r.random() < density * 0.6:
                     fr[ctx].append(rec(self.tag(ctx[:2] + fr["name"] + "_")))
 
-    def some_need(self, prog, framer, auxes=()):
+    def nums(self, prog, inputs=False):
+        """numeric shares (all shares of the programs made without the `needs` flag)"""
+        return [s for s in (prog["inputs"] if inputs else prog["shares"]) if kind_of(prog["shares"][s]) == "n"]
+
+    def check_need(self, prog, neg):
+        """state <op> goal [+- tol] in its general form (C21)"""
+        r = self.r
+        scale = prog.get("scale", 1)
+        c = r.random()
+        if c < 0.2 and self.has("clocks"):
+            if r.random() < 0.5:
+                return need("check", neg, src="elapsed", share="", st="n", op=r.choice(OPS), gk="lit", gt="n",
+                            goal=r.randint(0, 3) * prog["tick"] + r.choice((0, 0, 1)), tol=r.choice((0, 0, 1, prog["tick"], -1)))
+            if r.random() < 0.3:
+                return need("check", neg, src="recurred", share="", st="n", op=r.choice(OPS), gk="share", gt="n",
+                            goal=r.choice(self.nums(prog)), tol=r.choice((0, 0, scale)))
+            return need("check", neg, src="recurred", share="", st="n", op=r.choice(OPS), gk="lit", gt="n",
+                        goal=r.randint(0, 3 * scale), tol=r.choice((0, 0, 1, scale)), fl=r.random() < 0.3)
+        s = r.choice(list(prog["shares"]))
+        st = kind_of(prog["shares"][s])
+        same = [x for x in prog["shares"] if x != s and kind_of(prog["shares"][x]) == st]
+        if st == "n":
+            if r.random() < 0.1:    # a number is never equal to a string
+                return need("check", neg, src="share", share=s, st="n", op=r.choice(("==", "!=")), gk="lit", gt="s",
+                            goal=r.choice(("a", "b")), tol=r.choice((0, 0, 1)))
+            if same and r.random() < 0.35:
+                return need("check", neg, src="share", share=s, st="n", op=r.choice(OPS), gk="share", gt="n",
+                            goal=r.choice(same), tol=r.choice((0, 0, 1, 2, -1)))
+            return need("check", neg, src="share", share=s, st="n", op=r.choice(OPS), gk="lit", gt="n",
+                        goal=r.randint(-2, 3), tol=r.choice((0, 0, 0, 1, 2, -1)), fl=r.random() < 0.3)
+        if st == "s":
+            if same and r.random() < 0.35:
+                return need("check", neg, src="share", share=s, st="s", op=r.choice(OPS), gk="share", gt="s",
+                            goal=r.choice(same), tol=0)
+            return need("check", neg, src="share", share=s, st="s", op=r.choice(OPS), gk="lit", gt="s",
+                        goal=r.choice(("a", "b", "ab")), tol=r.choice((0, 0, 0, 1)))
+        return need("check", neg, src="share", share=s, st="b", op=r.choice(("==", "!=")), gk="lit", gt="b",
+                    goal=r.random() < 0.5, tol=0)
+
+    def mark_need(self, prog, neg, key, keys):
+        """share is updated|changed [in frame F] [by marker] on a transition of frame `key` (C20)"""
+        r = self.r
+        kind = r.choice(("updated", "updated", "changed"))
+        share = r.choice(self.nums(prog))
+        if kind == "changed" and r.random() < 0.4:
+            share = "out.m"      # the share with named fields: a field may be added after the snapshot
+        c = r.random()
+        frame, form = "", "name"
+        if c < 0.35:
+            frame, form = key, r.choice(("name", "me", "bare"))
+        elif c < 0.55:
+            frame = r.choice(keys)
+        by = ""
+        if r.random() < 0.35:
+            by = r.choice(("u0", "u1") if kind == "updated" else ("c0", "c1"))
+        # one mark (share, framer, name) is used by conditions of one kind only
+        fr = prog["frames"][key]
+        name = by or prog["frames"][frame or key]["name"]
+        kind = self.markkinds.setdefault((share, fr["framer"], name), kind)
+        if by and by[0] != kind[0]:
+            by = ""
+            name = prog["frames"][frame or key]["name"]
+            kind = self.markkinds.setdefault((share, fr["framer"], name), kind)
+        return need(kind, neg, share=share, frame=frame, by=by, form=form)
+
+    def some_need(self, prog, framer, auxes=(), go=None):
         r = self.r
         kinds = []
         if self.has("inputs"):
@@ -87,15 +171,26 @@ class Gen:
             kinds += ["elapsed", "recurred"]
         if self.has("done") and auxes:
             kinds += ["done"]
+        if self.has("needs"):
+            kinds += ["check", "check", "check", "truthy"]
+        if self.has("marks") and go:
+            kinds += ["updated"] * (6 if self.has("watch") else 2)
         if not kinds:
             kinds = ["always"]
         k = r.choice(kinds)
         neg = r.random() < 0.2
-        if k == "cmp":
+        if k == "check":
+            return self.check_need(prog, neg)
+        if k == "truthy":
             s = r.choice(list(prog["shares"]))
+            return need("truthy", neg, share=s, st=kind_of(prog["shares"][s]))
+        if k == "updated":
+            return self.mark_need(prog, neg, go[0], go[1])
+        if k == "cmp":
+            s = r.choice(self.nums(prog))
             return need("cmp", neg, share=s, op=r.choice(OPS), goal=r.randint(0, 2))
         if k == "bool":
-            return need("bool", neg, share=r.choice(prog["inputs"]))
+            return need("bool", neg, share=r.choice(self.nums(prog, True)))
         if k == "elapsed":
             return need("elapsed", neg, op=r.choice((">=", ">=", ">", "==")), goal=r.randint(0, 3) * prog["tick"] + r.choice((0, 0, 1)))
         if k == "recurred":
@@ -104,8 +199,10 @@ class Gen:
             return need("done", neg, who=r.choice(list(auxes)))
         return need("always", False)
 
-    def needs(self, prog, framer, auxes=(), maxn=2):
-        return [self.some_need(prog, framer, auxes) for _ in range(self.r.randint(1, maxn))]
+    def needs(self, prog, framer, auxes=(), maxn=2, go=None):
+        if self.has("needs") and maxn > 1:
+            maxn = 3
+        return [self.some_need(prog, framer, auxes, go) for _ in range(self.r.randint(1, maxn))]
 
     def behaviour(self, prog, name, keys, auxnames=(), condaux=(), others=()):
         """transitions, guards, store acts, bids inside one framer"""
@@ -118,7 +215,11 @@ class Gen:
             if r.random() < 0.4:
                 fr["recur"].append({"k": "inc", "share": r.choice(self.outs), "by": 1})
             if r.random() < 0.15:
-                fr["exit"].append({"k": "copy", "src": r.choice(list(prog["shares"])), "dst": r.choice(self.outs)})
+                fr["exit"].append({"k": "copy", "src": r.choice(self.nums(prog)), "dst": r.choice(self.outs)})
+            if self.has("needs") and r.random() < 0.3:
+                fr[r.choice(("enter", "recur"))].append({"k": "put", "share": "out.s", "val": r.choice(("a", "b", "ab"))})
+            if self.has("marks") and r.random() < 0.2:
+                fr["enter"].append({"k": "putf", "share": "out.m", "field": EXTRA, "val": r.randint(0, 1)})
             # guards
             if self.has("guards") and r.random() < 0.3:
                 fr["benter"] = self.needs(prog, name, (), 1)
@@ -131,7 +232,7 @@ class Gen:
             # transitions
             for _ in range(r.choice((0, 1, 1, 2))):
                 far = r.choice(keys)
-                fr["precur"].append({"k": "go", "far": far, "needs": self.needs(prog, name, auxnames), "transit": []})
+                fr["precur"].append({"k": "go", "far": far, "needs": self.needs(prog, name, auxnames, go=(key, keys)), "transit": []})
             if condaux and r.random() < 0.2:
                 fr["precur"].append({"k": "auxif", "aux": r.choice(list(condaux)), "needs": self.needs(prog, name, (), 1)})
             # timeout / repeat: implicit transitions to the lexically next frame
@@ -156,8 +257,21 @@ class Gen:
     def program(self):
         r = self.r
         prog = {"tick": r.choice((1, 2, 2, 3)), "order": [], "framers": {}, "frames": {},
-                "shares": {"in.a": 0, "in.b": 0, "out.x": 0, "out.y": 0}, "inputs": ["in.a", "in.b"]}
+                "shares": {"in.a": 0, "in.b": 0, "out.x": 0, "out.y": 0}, "inputs": ["in.a", "in.b"],
+                "envvals": {"in.a": [0, 1], "in.b": [0, 1]}}
         self.outs = ["out.x", "out.y"]
+        if self.has("needs"):
+            prog["shares"].update({"in.s": "a", "in.t": True, "out.s": "a"})
+            prog["inputs"] += ["in.s", "in.t"]
+            prog["envvals"].update({"in.a": [-1, 0, 1], "in.s": ["a", "b"], "in.t": [True, False]})
+            if r.random() < 0.3:
+                prog["scale"] = 2      # numbers in halves
+        if self.has("marks"):
+            prog["shares"]["out.m"] = 0       # a share with named fields: data in field `pos`, a second field `sub` may be added
+            prog["fielded"] = ["out.m"]
+            self.outs.append("out.m")
+        if self.has("watch"):
+            return self.watch_program(prog)
         nmain = self.size.get("framers", r.randint(1, 3))
         mains = ["m%d" % i for i in range(nmain)]
         naux = r.randint(1, 2) if self.has("aux") else 0
@@ -181,7 +295,7 @@ class Gen:
             self.recorders(prog, allkeys[s], 0.9)
             self.behaviour(prog, s, allkeys[s], (), (), ())
             if r.random() < 0.6:   # a first-frame condition so that starts can fail
-                prog["frames"][prog["framers"][s]["first"]]["benter"] = [need("cmp", r.random() < 0.3, share=r.choice(prog["inputs"]), op="==", goal=1)]
+                prog["frames"][prog["framers"][s]["first"]]["benter"] = [need("cmp", r.random() < 0.3, share=r.choice(self.nums(prog, True)), op="==", goal=1)]
             if r.random() < 0.4:
                 prog["frames"][r.choice(allkeys[s])][r.choice(("enter", "recur"))].append({"k": "done", "who": "me"})
         self.slaven = slaven
@@ -221,11 +335,78 @@ class Gen:
         if not self.has("inputs"):
             return out
         for n in range(1, ticks):
-            if r.random() < 0.45:
-                out[n] = [(r.choice(prog["inputs"]), r.randint(0, 1))]
+            if r.random() < (0.6 if self.has("watch") else 0.45):
+                s = r.choice(prog["inputs"])
+                out[n] = [(s, r.choice(prog["envvals"][s]))]
                 if r.random() < 0.2:
-                    out[n].append((r.choice(prog["inputs"]), r.randint(0, 1)))
+                    s = r.choice(prog["inputs"])
+                    out[n].append((s, r.choice(prog["envvals"][s])))
+            if self.has("marks") and r.random() < 0.15:
+                # another field of the share with named fields is written from outside (added on the first write)
+                out.setdefault(n, []).append(("out.m", r.randint(0, 1), EXTRA))
         return out
+
+    def watch_program(self, prog):
+        """watcher framers whose transitions are guarded by marker conditions + a writer framer (C20)"""
+        r = self.r
+        nw = r.choice((1, 1, 2))
+        watchers = ["w%d" % i for i in range(nw)]
+        order = list(watchers)
+        order.insert(r.randint(0, len(order)), "p0")     # the writer runs before / between / after the watchers
+        prog["order"] = order
+        allkeys = {}
+        for f in order:
+            if f == "p0":
+                keys = allkeys[f] = self.make_framer(prog, f, "active", r.randint(2, 4))
+                prog["framers"][f]["first"] = keys[0]
+                for i, key in enumerate(keys):
+                    fr = prog["frames"][key]
+                    fr["over"], fr["under"] = "", ""
+                for i, key in enumerate(keys):
+                    fr = prog["frames"][key]
+                    # writes of the same / different values, of a second field, increments; on entry or every tick
+                    for _ in range(r.choice((0, 1, 1, 2))):
+                        w = r.random()
+                        sh = r.choice(self.outs)
+                        ctx = r.choice(("enter", "enter", "enter", "recur", "exit"))
+                        if w < 0.45:
+                            fr[ctx].append({"k": "put", "share": sh, "val": r.randint(0, 1)})
+                        elif w < 0.7:
+                            fr[ctx].append({"k": "putf", "share": "out.m", "field": EXTRA, "val": r.randint(0, 1)})
+                        elif w < 0.85:
+                            fr[ctx].append({"k": "inc", "share": sh, "by": r.choice((0, 1))})
+                        else:
+                            fr[ctx].append({"k": "copy", "src": r.choice(self.nums(prog)), "dst": sh})
+                    # move on at once / after some ticks / when an input says so / stay
+                    nxt = keys[(i + 1) % len(keys)]
+                    c = r.random()
+                    if c < 0.3:
+                        fr["precur"].append({"k": "go", "far": nxt, "needs": [], "transit": []})
+                    elif c < 0.6:
+                        n = need("recurred", False, op=">=", goal=r.randint(1, 3))
+                        fr["precur"].append({"k": "go", "far": nxt, "needs": [n], "transit": []})
+                    elif c < 0.85:
+                        n = need("cmp", r.random() < 0.3, share=r.choice(prog["inputs"][:2]), op="==", goal=1)
+                        fr["precur"].append({"k": "go", "far": nxt, "needs": [n], "transit": []})
+                continue
+            keys = allkeys[f] = self.make_framer(prog, f, "active", r.randint(2, 3))
+            self.recorders(prog, keys, 0.7)
+            for key in keys:
+                fr = prog["frames"][key]
+                for _ in range(r.choice((1, 1, 2))):
+                    ns = [self.mark_need(prog, r.random() < 0.15, key, keys)]
+                    c = r.random()
+                    if c < 0.2:
+                        ns.append(self.mark_need(prog, r.random() < 0.15, key, keys))
+                    elif c < 0.35:
+                        ns.insert(r.randint(0, 1), need("cmp", False, share=r.choice(prog["inputs"][:2]), op=r.choice(("==", "!=")), goal=r.randint(0, 1)))
+                    fr["precur"].append({"k": "go", "far": r.choice(keys), "needs": ns, "transit": []})
+                # the watcher itself writes a watched share on entry (after the entry mark) / every tick
+                if r.random() < 0.25:
+                    fr[r.choice(("enter", "enter", "recur", "exit"))].append({"k": "put", "share": r.choice(self.outs), "val": r.randint(0, 1)})
+                if self.has("guards") and r.random() < 0.2:
+                    fr["benter"] = [need("cmp", False, share=r.choice(prog["inputs"][:2]), op="==", goal=r.randint(0, 1))]
+        return prog
 
 
 def generate(seed, n, profile=ALL, size=None):
